@@ -677,7 +677,10 @@ fn pm1_stage2_polyeval(zn: &ZmodN, b2: f64, g: MInt) -> (Vec<Uint>, Uint) {
             gaps.push(dg);
             dg = zn.mul(&dg, &ddg)
         }
-        debug_assert!(gexp == exp_modn(zn, &g, (d2 as u64 * d2 as u64 * d1) / 2));
+        // d2² d1 exceeds 64 bits for the largest table rows (B2 > 1e13).
+        if let Some(e) = (d2 as u64 * d2 as u64).checked_mul(d1) {
+            debug_assert!(gexp == exp_modn(zn, &g, e / 2));
+        }
         // sum(gaps) = d2² D/2
         assert!(gaps.len() == d2);
         // Apply gaps in reverse order to build (k²-i²)D/2
